@@ -287,6 +287,34 @@ func (s *session) observe(e int) string {
 	return fmt.Sprintf("obs %d %s %d %d %d %s", e, e1, d1, cn, d2, e2)
 }
 
+// lateHandler: the echo handler of the protocol registered while the transport runs
+func (s *session) lateHandler(id int) ServeHandlerDescription {
+	e := s.ep[id]
+	return ServeHandlerDescription{MakeArg: func() interface{} { return new(interface{}) },
+		Handler: func(ctx context.Context, arg interface{}) (interface{}, error) {
+			h := e.nh
+			e.nh++
+			s.r.ev("iv %d %d %s %s %d", id, h, "lecho", nonceOf(arg), 0)
+			var res interface{}
+			if p, ok := arg.(*interface{}); ok && p != nil {
+				if n, ok := (*p).(int64); ok {
+					res = n + 1000000
+				} else if u, ok := (*p).(uint64); ok {
+					res = int64(u) + 1000000
+				}
+			}
+			s.r.ev("he %d %d %s %d %d", id, h, nonceOf(res), 0, 0)
+			return res, nil
+		}}
+}
+
+func fullMethod(m string) string {
+	if m == "lecho" {
+		return "late." + m
+	}
+	return "p." + m
+}
+
 type sessOp struct {
 	caller  int
 	ep      int
@@ -337,11 +365,11 @@ func (s *session) runOp(op sessOp, ctx context.Context) {
 	res := new(interface{})
 	switch op.kind {
 	case "call":
-		err = e.cli.Call(ctx, "p."+op.method, arg, res, op.timeout)
+		err = e.cli.Call(ctx, fullMethod(op.method), arg, res, op.timeout)
 	case "callc":
-		err = e.cli.CallCompressed(ctx, "p."+op.method, arg, res, CompressionType(op.ctype), op.timeout)
+		err = e.cli.CallCompressed(ctx, fullMethod(op.method), arg, res, CompressionType(op.ctype), op.timeout)
 	case "notify":
-		err = e.cli.Notify(ctx, "p."+op.method, arg, op.timeout)
+		err = e.cli.Notify(ctx, fullMethod(op.method), arg, op.timeout)
 	}
 	atReturn := vtext(*res)
 	s.r.ev("ce %d %s %s", op.caller, outcomeOf(err), nonceOf(res))
@@ -414,6 +442,11 @@ func genPlan(g *prng, flavour string) sessPlan {
 				p.ops[i].method = "echo"
 			}
 		}
+		if g.chance(1, 3) {
+			// a local Close while a Write is blocked mid-frame
+			p.closer = fmt.Sprintf("ext%d", 1-p.stallRx)
+			p.closers = 1
+		}
 	case "burst":
 		// overlapping notification / call handlers in one direction, finishing in every order
 		ep := g.intn(2)
@@ -442,6 +475,17 @@ func genPlan(g *prng, flavour string) sessPlan {
 		for k := 0; k < 1+g.intn(4); k++ {
 			p.inject = append(p.inject, fmt.Sprintf("%s@%d",
 				[]string{"dupresp", "strayresp", "straycancel", "nfcall", "nfnotify", "dupresp"}[g.intn(6)], g.intn(2)))
+		}
+		if g.chance(1, 4) {
+			// a fatal frame racing a local Close of the same endpoint: Err() must settle on ONE value
+			ep := g.intn(2)
+			p.inject = append(p.inject, fmt.Sprintf("garbage@%d", ep))
+			p.closer = fmt.Sprintf("ext%d", ep)
+			p.closers = 1
+		}
+		if g.chance(1, 2) {
+			// a call to a protocol that is being registered at that very time
+			p.ops = append(p.ops, sessOp{caller: len(p.ops), ep: 1 - (len(p.inject) % 2), kind: "call", method: "lecho", nonce: 950})
 		}
 	case "limit":
 		if g.chance(1, 2) {
@@ -478,7 +522,7 @@ func runSession(g *prng, p sessPlan, script []string) (hist []string, trace []st
 		// the receive loop goroutines are started by setup in endpoint order
 		name := fmt.Sprintf("transport.receiveFrames#0.go/%d", p.stallRx)
 		t0 := time.Now()
-		r.holds[name] = func(int) bool { return time.Since(t0) >= 4*time.Second }
+		r.holds[name] = func(int) bool { return time.Since(t0) >= 8*time.Second }
 	}
 	// constructing the transports starts library goroutines: do it in an actor
 	ready := false
@@ -540,7 +584,8 @@ func runSession(g *prng, p sessPlan, script []string) (hist []string, trace []st
 			verifPoint("@reg.wait2")
 			ep := len(p.inject) % 2
 			r.ev("regb %d", ep)
-			_ = s.ep[ep].srv.Register(Protocol{Name: "late", Methods: map[string]ServeHandlerDescription{}})
+			_ = s.ep[ep].srv.Register(Protocol{Name: "late", Methods: map[string]ServeHandlerDescription{
+				"lecho": s.lateHandler(ep)}})
 			r.ev("rege %d", ep)
 		})
 		r.spawn("inj", func() {
@@ -587,6 +632,13 @@ func runSession(g *prng, p sessPlan, script []string) (hist []string, trace []st
 					enc.intv(&body, 2)
 					enc.str(&body, []byte("nope.x"))
 					enc.value(&body, int64(1))
+				case "garbage":
+					// a frame with a valid length and an invalid type: fatal for the receiving transport
+					body.WriteByte(0x94)
+					enc.intv(&body, 9)
+					enc.intv(&body, 1)
+					enc.str(&body, []byte("x"))
+					enc.value(&body, nil)
 				}
 				var fr bytes.Buffer
 				enc.intv(&fr, int64(body.Len()))
@@ -617,6 +669,14 @@ func runSession(g *prng, p sessPlan, script []string) (hist []string, trace []st
 		r.advance(time.Second)
 	}
 	r.ev("settled")
+	if p.stallRx >= 0 {
+		// the stalled peer starts reading again: let the backlog drain before anything is torn down
+		r.holds = map[string]func(int) bool{}
+		r.quiet()
+		for i := 0; i < 3; i++ {
+			r.advance(time.Second)
+		}
+	}
 	// observe once more, then tear down what is still open
 	r.spawn("teardown", func() {
 		for e := 0; e < 2; e++ {
